@@ -45,47 +45,128 @@ Print Assumptions first_path_is_match.
         (ok_follow l rest = true), the first production that matches l ++ rest is the class's, and
         it matches exactly l:   first_token (l ++ rest) = (class, l)                              *)
 Theorem ident_lexeme : forall d e0 els rest, ok_follow (LIdent d e0 els) rest = true -> wins (LIdent d e0 els) rest.
-Proof. exact LexemeFacts.ident_lexeme. Qed.
+Proof. exact LexemeUri.ident_lexeme. Qed.
 Print Assumptions ident_lexeme.
 (* FUNCTION versus IDENT, exactly as coded (tokenize2.py l.186-190): a name directly followed by '(' is a FUNCTION
    token name+'(' unless the RAW name lower-cased is "and" (ok_follow (LIdent ..) admits '(' after it only then) *)
 Theorem function_lexeme : forall d e0 els rest, ok_follow (LFunction d e0 els) rest = true -> wins (LFunction d e0 els) rest.
-Proof. exact LexemeFacts.function_lexeme. Qed.
+Proof. exact LexemeUri.function_lexeme. Qed.
 Print Assumptions function_lexeme.
 Example and_exception :
   ok_follow (LIdent false (P 65) [P 110; P 68]) (s "(x") = true /\            (* AnD( -> IDENT AnD, CHAR ( *)
   ok_follow (LFunction false (P 65) [P 110; P 68]) (s "x") = false /\
-  ok_follow (LFunction false (H [54%N; 49%N] []) [P 110; P 100]) (s "x") = false /\   (* escape-initial: sweep only *)
+  ok_follow (LFunction false (H [54%N; 49%N] []) [P 110; P 100]) (s "x") = true /\   (* \61nd( -> FUNCTION and( *)
   ok_follow (LFunction false (P 97) [H [54%N; 101%N] [32%N]; P 100]) (s "x") = true /\ (* a\6e d( -> FUNCTION *)
-  ok_follow (LFunction false (P 117) [P 110]) (s "x") = true /\                 (* un( : plain u, u_safe *)
-  ok_follow (LIdent false (P 117) [P 114; P 108]) (s " ") = false.              (* url : not covered (sweep) *)
+  ok_follow (LFunction false (P 117) [P 114]) (s "x") = true /\                 (* ur(  -> FUNCTION *)
+  ok_follow (LFunction false (P 117) [P 114; P 108]) (s "x") = false /\          (* url( -> the URI class / FUNCTION by the body *)
+  ok_follow (LIdent false (P 117) [P 114; P 108]) (s " ") = true /\              (* url  -> IDENT *)
+  ok_follow (LIdent false (H [55%N; 53%N] [32%N]) [L 114; P 76]) (s ";") = true /\ (* \75 \rL -> IDENT *)
+  ok_follow (LIdent false (P 117) []) (s "+a") = false.                          (* u+a -> UNICODE-RANGE *)
 Proof. vm_compute. repeat split; reflexivity. Qed.
+
+(* the restriction of ident_lexeme on names beginning with u, U or an escape is gone: ok_follow asks for kw_free
+   (no spelling of  u r l (  and no spelling of  u +  at the start of the text), and every identifier that is
+   not followed by '(' or '+' has it *)
+Theorem ident_lexeme_unrestricted : forall d e0 els rest, wf_ident d e0 els rest = true ->
+  hd_not (is_c 40) rest = true -> hd_not (is_c 43) rest = true -> wins (LIdent d e0 els) rest.
+Proof. exact ident_lexeme_full. Qed.
+Print Assumptions ident_lexeme_unrestricted.
+Theorem identifier_keyword_free : forall e0 els rest, wf_ident false e0 els rest = true ->
+  hd_not (is_c 40) rest = true -> hd_not (is_c 43) rest = true ->
+  first_plain_ok false e0 (render els ++ rest) = true.
+Proof. exact ident_kw_free. Qed.
+(* kw_free is exactly "the URI and UNICODE-RANGE productions cannot get past their keyword" *)
+Theorem keyword_free_fails : forall t, kw_free t = true ->
+  Fails (R:=nat) (m re_URI) t /\ Fails (R:=nat) (m re_UNICODE_RANGE) t.
+Proof. exact kw_free_fails. Qed.
+Print Assumptions keyword_free_fails.
+
+(* ---- the letter macros U R L, exactly (letter_macro_spec): for EVERY text t and EVERY continuation the macro offers
+   precisely the split points `lspell lt t` in that order: plain upper, plain lower, backslash + up to four zeros +
+   the two hex digits + optional terminator (CR LF, then one white-space character, then none - a continuation
+   that fails after the long spelling is retried after the shorter ones), backslash + upper, backslash + lower *)
+Theorem letter_macro_exact_U : forall t p (k : cont nat), m U_re p t k = tryl k p t (lspell LU t).
+Proof. intros t p k. apply (U_exact t). Qed.
+Theorem letter_macro_exact_R : forall t p (k : cont nat), m R_re p t k = tryl k p t (lspell LR t).
+Proof. intros t p k. apply (R_exact t). Qed.
+Theorem letter_macro_exact_L : forall t p (k : cont nat), m L_re p t k = tryl k p t (lspell LL t).
+Proof. intros t p k. apply (L_exact t). Qed.
+Theorem letter_macro_spec : forall p t n,
+  (rmatch U_re p t = Some n <-> hd_error (lspell LU t) = Some n) /\
+  (rmatch R_re p t = Some n <-> hd_error (lspell LR t) = Some n) /\
+  (rmatch L_re p t = Some n <-> hd_error (lspell LL t) = Some n).
+Proof. exact letter_macro_spec_lemma. Qed.
+Print Assumptions letter_macro_spec.
+Theorem letter_macros_regenerated : re_URI = Cat U_re (Cat R_re (Cat L_re uri_rest)) /\ re_UNICODE_RANGE = Cat U_re ur_rest.
+Proof. exact shapes_uri. Qed.
+Example letter_macro_examples :
+  lspell LU (s "u") = [1%nat] /\ lspell LL ([92%N] ++ s "4C" ++ [13%N; 10%N] ++ s "(") = [5; 4; 3]%nat /\
+  lspell LR ([92%N] ++ s "000072 x") = [8; 7]%nat /\ lspell LR ([92%N] ++ s "0000072") = [] /\
+  lspell LU ([92%N] ++ s "U") = [2%nat] /\ lspell LL (s "x") = [].
+Proof. vm_compute. repeat split; reflexivity. Qed.
+
+(* ---- URI: url( in every spelling the macros accept, white space, (string | url characters), white space, ')'
+   is ONE URI token (value = unicodesub of the raw text, see classify); URI is the first candidate production for the
+   first characters u, U and backslash, so it wins against UNICODE-RANGE / IDENT / FUNCTION ---- *)
+Theorem uri_lexeme : forall eu er el_ w1 body w2 rest,
+  ok_follow (LUri eu er el_ w1 body w2) rest = true -> wins (LUri eu er el_ w1 body w2) rest.
+Proof. exact LexemeUri.uri_lexeme. Qed.
+Print Assumptions uri_lexeme.
+Example uri_examples :
+  (* \75 R\4C\r\n(  'a\'b' ) *)
+  ok_follow (LUri (H [55%N; 53%N] [32%N]) (P 82) (H [52%N; 67%N] [13%N; 10%N]) [32%N; 9%N]
+                  (UQuoted 39 [P 97; L 39; P 98]) [32%N]) (s "x") = true /\
+  (* url(a\)b(\29 ) *)
+  ok_follow (LUri (P 117) (P 114) (P 108) [] (UBare [P 97; L 41; P 98; P 40; H [50%N; 57%N] [32%N]]) []) (s ")") = true /\
+  (* url( ) *)
+  ok_follow (LUri (P 117) (L 114) (P 108) [32%N] (UBare []) []) [] = true /\
+  classify (LUri (H [55%N; 53%N] [32%N]) (P 82) (P 108) [] (UBare [P 97]) []) = (s "URI", s "uRl(a)").
+Proof. vm_compute. repeat split; reflexivity. Qed.
+
+(* ---- UNICODE-RANGE: u-spelling '+' 1-6 of [0-9a-fA-F?], optionally '-' 1-6 hex digits; the URI production, tried
+   first, cannot read its keyword ---- *)
+Theorem unicode_range_lexeme : forall eu a b rest,
+  ok_follow (LUrange eu a b) rest = true -> wins (LUrange eu a b) rest.
+Proof. exact urange_lexeme. Qed.
+Print Assumptions unicode_range_lexeme.
+Example unicode_range_examples :
+  ok_follow (LUrange (P 85) (s "0") (Some (s "7F"))) (s ";") = true /\
+  ok_follow (LUrange (H [55%N; 53%N] [32%N]) (s "1?") None) (s " ") = true /\
+  ok_follow (LUrange (L 117) (s "123456") None) (s "7") = true /\
+  ok_follow (LUrange (P 117) (s "12") None) (s "3") = false.
+Proof. vm_compute. repeat split; reflexivity. Qed.
+
+(* ---- the lone backslash: a CHAR token when nothing or a newline character follows (no escape can start) ---- *)
+Theorem backslash_delim_lexeme : forall rest, match rest with c2 :: _ => is_nlc c2 | [] => true end = true -> wins (LDelim 92) rest.
+Proof. exact backslash_delim. Qed.
+Print Assumptions backslash_delim_lexeme.
+
 Theorem ws_lexeme : forall xs rest, ok_follow (LWs xs) rest = true -> wins (LWs xs) rest.
-Proof. exact LexemeFacts.ws_lexeme. Qed.
+Proof. exact LexemeBase.ws_lexeme. Qed.
 Print Assumptions ws_lexeme.
 Theorem number_lexeme : forall n rest, ok_follow (LNum n) rest = true -> wins (LNum n) rest.
-Proof. exact LexemeFacts.number_lexeme. Qed.
+Proof. exact LexemeBase.number_lexeme. Qed.
 Print Assumptions number_lexeme.
 Theorem dimension_lexeme : forall n d e0 els rest, ok_follow (LDim n d e0 els) rest = true -> wins (LDim n d e0 els) rest.
-Proof. exact LexemeFacts.dimension_lexeme. Qed.
+Proof. exact LexemeBase.dimension_lexeme. Qed.
 Print Assumptions dimension_lexeme.
 Theorem percentage_lexeme : forall n rest, ok_follow (LPct n) rest = true -> wins (LPct n) rest.
-Proof. exact LexemeFacts.percentage_lexeme. Qed.
+Proof. exact LexemeBase.percentage_lexeme. Qed.
 Print Assumptions percentage_lexeme.
 Theorem hash_lexeme : forall els rest, ok_follow (LHash els) rest = true -> wins (LHash els) rest.
-Proof. exact LexemeFacts.hash_lexeme. Qed.
+Proof. exact LexemeBase.hash_lexeme. Qed.
 Print Assumptions hash_lexeme.
 Theorem atkeyword_lexeme : forall d e0 els rest, ok_follow (LAt d e0 els) rest = true -> wins (LAt d e0 els) rest.
-Proof. exact LexemeFacts.at_lexeme. Qed.
+Proof. exact LexemeBase.at_lexeme. Qed.
 Print Assumptions atkeyword_lexeme.
 Theorem string_lexeme : forall q els rest, ok_follow (LStr q els) rest = true -> wins (LStr q els) rest.
-Proof. exact LexemeFacts.string_lexeme. Qed.
+Proof. exact LexemeBase.string_lexeme. Qed.
 Print Assumptions string_lexeme.
 Theorem comment_lexeme : forall seg0 st0 gs rest, ok_follow (LComment seg0 st0 gs) rest = true -> wins (LComment seg0 st0 gs) rest.
-Proof. exact LexemeFacts.comment_lexeme. Qed.
+Proof. exact LexemeBase.comment_lexeme. Qed.
 Print Assumptions comment_lexeme.
 Theorem match_ops_lexeme : forall o rest, wins (LOp o) rest.
-Proof. exact LexemeFacts.op_lexeme. Qed.
+Proof. exact LexemeBase.op_lexeme. Qed.
 Print Assumptions match_ops_lexeme.
 Theorem delim_lexeme : forall c rest, ok_follow (LDelim c) rest = true -> wins (LDelim c) rest.   (* fast, pure and context delimiters *)
 Proof. intros c rest. apply lexeme_wins. Qed.
@@ -97,9 +178,10 @@ Print Assumptions delim_lexeme.
      @  not followed by an identifier start (optional '-', then nmstart char / non-ASCII / backslash + non-newline)
      #  not followed by a name character, non-ASCII or backslash
      -  not followed by an identifier start, a digit, '.' digit, or "->"
-   (for '/' a following '*' still gives CHAR when the comment is unterminated; a lone backslash is not covered) *)
+     \\  followed by nothing or by a newline character (LF, CR, FF): no escape can start
+   (for '/' a following '*' still gives CHAR when the comment is unterminated) *)
 Theorem context_delim_lexeme : forall c rest, ctx_delim_ok c rest = true -> wins (LDelim c) rest.
-Proof. exact ctx_delim_lexeme. Qed.
+Proof. intros c rest H. apply lexeme_wins. cbn [ok_follow]. rewrite H. apply orb_true_r. Qed.
 Print Assumptions context_delim_lexeme.
 
 (* value and type of the token: finish_token gives classify l = tokval (cls l) (text l) *)
@@ -143,7 +225,10 @@ Definition example_seq : list lexeme :=
     LIdent false (P 97) [P 110; P 100];                                        (* and( stays IDENT + CHAR *)
     LDelim 40;
     LNum {| nsign := []; nint := [52%N]; nfrac := None |};
-    LDelim 41 ].
+    LDelim 41;
+    LUri (H [55%N; 53%N] [32%N]) (P 82) (L 108) [32%N] (UQuoted 34 [P 97; H [52%N; 49%N] []; P 103]) [];   (* \75 R\l( "a\41g") *)
+    LUrange (P 85) (s "0") (Some (s "7F"));                                    (* U+0-7F *)
+    LDelim 92 ].                                                               (* a lone backslash at the end *)
 Example example_adjacent : adjacent example_seq = true /\ start_ok (concat (map text example_seq)) = true.
 Proof. vm_compute. split; reflexivity. Qed.
 Example example_classified :
@@ -152,10 +237,13 @@ Example example_classified :
     (s "IDENT", s "-xA" ++ [92%N] ++ s "!"); (s "INCLUDES", s "~=");
     (s "STRING", [34%N] ++ s "a" ++ [34%N] ++ s "b" ++ [34%N]);
     (s "COMMENT", s "/* **x*/"); (s "DIMENSION", s "-.5px"); (s "CHAR", s ";"); (s "FUNCTION", s "un(");
-    (s "CHAR", s "-"); (s "S", s " "); (s "IDENT", s "and"); (s "CHAR", s "("); (s "NUMBER", s "4"); (s "CHAR", s ")") ].
+    (s "CHAR", s "-"); (s "S", s " "); (s "IDENT", s "and"); (s "CHAR", s "("); (s "NUMBER", s "4"); (s "CHAR", s ")");
+    (s "URI", s "uR" ++ [92%N] ++ s "l( " ++ [34%N] ++ s "aAg" ++ [34%N] ++ s ")"); (s "UNICODE-RANGE", s "U+0-7F");
+    (s "CHAR", [92%N]) ].
 Proof. vm_compute. reflexivity. Qed.
 
-(* ---- classes covered by a finite sweep only (statements about exactly the listed texts) ---- *)
+(* ---- finite sweeps (statements about exactly the listed texts); since extension round 2 every class below also has a
+        theorem over all lexemes, the sweeps stay as regression examples of the regenerated tables ---- *)
 Theorem uri_sweep_finite : forallb (fun c => tok_is (fst c) (snd c)) uri_cases = true.
 Proof. exact uri_sweep. Qed.
 Print Assumptions uri_sweep_finite.
